@@ -91,8 +91,10 @@ def rule_induction(ctx):
         fl = ok_arm[2][0][1]
         if fl[:2] == ("call", "WithWarnings::flawless") and fl[2][0][0] == "list":
             pair = fl[2][0][1]
-    ctx.add("TPL", "induction:base", pair is not None and len(pair) == 2 and pair[0] == BASE, site, "base case = universal_closure(F[N := n])", construct=pair[0] if pair else None)
-    ctx.add("TPL", "induction:step", pair is not None and len(pair) == 2 and pair[1] == STEP, site, "step = universal_closure((N >= n and F) -> F[N := N + 1])", construct=pair[1] if pair else None)
+    if pair is not None:
+        pair = tuple(sym.drop_never(x) for x in pair)
+    ctx.add("TPL", "induction:base", pair is not None and len(pair) == 2 and pair[0] == sym.drop_never(BASE), site, "base case = universal_closure(F[N := n])", construct=pair[0] if pair else None)
+    ctx.add("TPL", "induction:step", pair is not None and len(pair) == 2 and pair[1] == sym.drop_never(STEP), site, "step = universal_closure((N >= n and F) -> F[N := N + 1])", construct=pair[1] if pair else None)
     # early refusals
     pre = ((("arm", S, OUTER_IND), True), (("arm", C, INNER_CMP), True))
     want = {
